@@ -28,6 +28,12 @@ TOLERANCES = {"behaviour after set_params": "exact for deterministic models (one
 def _related(k, key):
     if k == key or k.startswith(key + "__") or key.startswith(k + "__"):
         return True
+    # scikit-learn composites: the `steps` / `transformer_list` / `transformers` list owns every named child below the same parent
+    for a_, b_ in ((k, key), (key, k)):
+        for lst in ("steps", "transformer_list", "transformers"):
+            if a_ == lst or a_.endswith("__" + lst):
+                if b_.startswith(a_[:-len(lst)]):
+                    return True
     # indexed / prefixed conventions of the library's own wrappers
     for flat, parent in (("models_", "models"), ("e_", "estimator"), ("c_", "clus")):
         if (k.startswith(flat) and (key == parent or key.startswith(parent + "__"))) or (key.startswith(flat) and (k == parent or k.startswith(parent + "__"))):
@@ -203,7 +209,7 @@ def _diff(x, y):
 def _cases(draw, tier="quick", only=None):
     names = R.all_class_names()
     name = only or draw(st.sampled_from(names))
-    flavour = draw(st.integers(0, 1))
+    flavour = draw(st.integers(0, 11))
     A = R.spec_for(name, draw, flavour)
     B = R.spec_for(name, draw, flavour)
     nops = draw(st.integers(1, 6 if tier == "quick" else 12))
